@@ -52,6 +52,17 @@ func c05(w []string) string {
 		m := types.AccessMode(atou(w[1]))
 		err := m.ApplyMutation(string(unhex(w[2])))
 		return "X " + strconv.FormatUint(uint64(m), 10) + " " + b2s(err == nil)
+	case "PR":
+		// the AccessMode predicates and comparisons (server/store/types/types.go:693-838)
+		m, x := types.AccessMode(atou(w[1])), types.AccessMode(atou(w[2]))
+		bs := []bool{m.IsJoiner(), m.IsReader(), m.IsWriter(), m.IsPresencer(), m.IsApprover(), m.IsSharer(), m.IsDeleter(),
+			m.IsOwner(), m.IsAdmin(), m.IsZero(), m.IsInvalid(), m.IsDefined(), m.BetterThan(x), m.BetterEqual(x),
+			(m & x).IsWriter(), (m & x).IsReader(), (m & x).IsOwner()}
+		r := "PR "
+		for _, b := range bs {
+			r += b2s(b)
+		}
+		return r
 	}
 	return "?"
 }
